@@ -221,7 +221,7 @@ def impl_peaks(batch, variant):
     N, C = len(batch), len(batch[0][0])
     try:
         res = {}
-        for fname, v in (("find_peak", variant), ("pick_maxima", variant),
+        for fname, v in (("find_peak", variant), ("pick_maxima", variant), ("pick_maximum", variant),
                          ("weights_spk_ch", "f64" if variant == "2d" else variant)):
             a = variant_array(batch, v)
             before = np.array(a, copy=True)
@@ -251,10 +251,99 @@ def impl_peaks(batch, variant):
                                              else "shape %s dtype %s, expected (%d, %d)" % (x.shape, x.dtype, N, C)))
         rows = [(int(df["peak_trace_idx"].iloc[i]), int(df["peak_time_idx"].iloc[i]), float(df["peak_val"].iloc[i]))
                 for i in range(N)]
+        # pick_maximum (public) returns the same three vectors find_peak puts into its frame
+        p3 = res["pick_maximum"]
+        if not isinstance(p3, tuple) or len(p3) != 3 or any(not isinstance(x, np.ndarray) or x.shape != (N,) for x in p3):
+            return ImplFault("pick_maximum returned %r" % (type(p3).__name__,))
+        if p3[0].dtype.kind not in "iu" or p3[1].dtype.kind not in "iu":
+            return ImplFault("pick_maximum index dtypes %s %s" % (p3[0].dtype, p3[1].dtype))
+        if [(int(a), int(b), float(c)) for a, b, c in zip(*p3)] != rows:
+            return ImplFault("pick_maximum %r differs from the find_peak rows %r" % (
+                [(int(a), int(b), float(c)) for a, b, c in zip(*p3)][:3], rows[:3]))
         return {"peaks": rows, "idx": [[int(v) for v in r] for r in im], "max": [[float(v) for v in r] for r in mv],
                 "weights": [[float(v) for v in r] for r in wt]}
     except Exception as e:      # noqa
         return ImplFault("malformed result of find_peak / pick_maxima / weights_spk_ch: %r" % (e,))
+
+
+def gen_helper_case(rng, batch):
+    """rows of an (N, T) matrix (one trace per waveform of the batch) with caller-chosen peak index, peak value,
+    sign flag and trough index — states compute_spike_features itself never produces included."""
+    T = len(batch[0])
+    rows = []
+    for w in batch[:12]:
+        c = rng.randrange(len(w[0]))
+        a = [0 if w[t][c] is None else w[t][c] for t in range(T)]
+        pk = rng.choice([0, T - 1, rng.randrange(T), rng.randrange(T), max(range(T), key=lambda t: abs(a[t]))])
+        pv = rng.choice([a[pk], a[pk], -a[pk], 2 * a[pk] + 1, 0, rng.randint(-50, 50)])
+        sg = rng.choice([1, -1, 1, -1, 1, -1, 0])
+        tq = rng.choice([T - 1, rng.randrange(T), rng.randrange(T)])
+        rows.append((pk, pv, sg, tq, a))
+    kk = rng.choice([5, 5, 0, 1, T - 1, T, T + 1, rng.randrange(0, T + 2)])
+    return kk, rows
+
+
+def enc_helper_inp(kk, rows):
+    T = len(rows[0][4])
+    out = [2, kk, len(rows), T, 0]
+    for pk, pv, sg, tq, a in rows:
+        out += [pk, pv, sg, tq] + a
+    return out
+
+
+def impl_helpers(kk, rows):
+    """arr_pre_post, find_trough, find_tip, half_peak_point, recovery_point called directly -> flat ints
+    (layout of Run.v run_helpers); [BAD...] markers where a result is malformed."""
+    import pandas as pd
+    N, T = len(rows), len(rows[0][4])
+    arr = np.array([r[4] for r in rows], dtype=np.float64)
+    pk = np.array([r[0] for r in rows], dtype=np.int64)
+
+    def frame():
+        return pd.DataFrame({"peak_time_idx": pk.copy(), "peak_val": np.array([float(r[1]) for r in rows]),
+                             "invert_sign_peak": np.array([float(r[2]) for r in rows]),
+                             "trough_time_idx": np.array([r[3] for r in rows], dtype=np.int64)})
+
+    def code(v):
+        v = float(v)
+        return NAN_CODE if math.isnan(v) else as_int(v)
+
+    out = []
+    try:
+        st, val = guarded("arr_pre_post", arr.copy(), pk.copy())
+        if st == "exc" or not isinstance(val, tuple) or len(val) != 2 or \
+                any(not isinstance(x, np.ndarray) or x.shape != (N, T) for x in val):
+            return ImplFault("arr_pre_post: %r" % (val if st == "exc" else type(val).__name__,))
+        for i in range(N):
+            out += [code(v) for v in val[0][i]] + [code(v) for v in val[1][i]]
+        for fname, ic, vc in (("find_trough", "trough_time_idx", "trough_val"), ("find_tip", "tip_time_idx", "tip_val")):
+            st, df = guarded(fname, arr.copy(), frame())
+            if st == "exc":
+                if not isinstance(df, ValueError):
+                    return ImplFault("%s raised %r" % (fname, df))
+                out += [0]
+            else:
+                out += [1]
+                for i in range(N):
+                    out += [int(df[ic].iloc[i]), as_int(float(df[vc].iloc[i]))]
+        st, df = guarded("half_peak_point", arr.copy(), frame())
+        if st == "exc":
+            return ImplFault("half_peak_point raised %r" % (df,))
+        for i in range(N):
+            out += [int(df["half_peak_post_time_idx"].iloc[i]), int(df["half_peak_pre_time_idx"].iloc[i]),
+                    as_int(float(df["half_peak_post_val"].iloc[i])), as_int(float(df["half_peak_pre_val"].iloc[i]))]
+        st, df = guarded("recovery_point", arr.copy(), frame(), idx_from_trough=kk)
+        if st == "exc":
+            if not isinstance(df, ValueError):
+                return ImplFault("recovery_point raised %r" % (df,))
+            out += [0]
+        else:
+            out += [1]
+            for i in range(N):
+                out += [int(df["recovery_time_idx"].iloc[i]), as_int(float(df["recovery_val"].iloc[i]))]
+        return out
+    except Exception as e:      # noqa
+        return ImplFault("malformed result of a stage function: %r" % (e,))
 
 
 def enc_peaks(obs):
@@ -849,7 +938,8 @@ def run(ctx):
     batches = gen_batches(ctx)
     stats = {k: 0 for k in ("rows", "raised", "swap", "doubly_positive", "peak_last5", "trough_last5",
                             "recovery_fallback", "positive_peak", "channel_tie", "nan", "peak_eq_trough",
-                            "meta_calls", "perm_rows", "perm_skipped_tie", "nondefault_fs_or_ms", "peaks_calls")}
+                            "meta_calls", "perm_rows", "perm_skipped_tie", "nondefault_fs_or_ms", "peaks_calls",
+                            "helper_calls", "return_peak_channel_calls")}
     inputs, outputs, descs = [], [], []
     nontrivial = set()
     n_waveforms = 0     # evaluations are counted per waveform (a batch call evaluates each of its rows)
@@ -881,6 +971,40 @@ def run(ctx):
             inputs.append(enc_inp(batch, k, 1, variant == "2d"))
             outputs.append(enc_peaks(obs))
             descs.append(pdesc)
+        if bi % 4 == 1 and len(batch[0]) >= 1:
+            # the stage functions called directly, with parameters of the caller's choosing
+            kk, hrows = gen_helper_case(ctx.rng, batch)
+            hobs = impl_helpers(kk, hrows)
+            stats["helper_calls"] += 1
+            hdesc = {"mode": "helpers", "k": kk, "rows": [list(r[:4]) + [r[4]] for r in hrows]}
+            if isinstance(hobs, Exception):
+                ctx.fail("direct call of a stage function: %s" % (hobs,), hdesc, {"class": "fault", "clause": "helpers"})
+                hobs = [0, 99]
+            inputs.append(enc_helper_inp(kk, hrows))
+            outputs.append(hobs)
+            descs.append(hdesc)
+        if bi % 5 == 2 and not isinstance(res, Exception):
+            # return_peak_channel=True: same frame plus the (N, T) matrix of the real peak traces
+            kw = {"return_peak_channel": True}
+            if fs is not None:
+                kw["fs"] = fs
+            if ms is not None:
+                kw["recovery_duration_ms"] = ms
+            st, val = guarded("compute_spike_features", to_array(batch), **kw)
+            stats["return_peak_channel_calls"] += 1
+            rdesc = {"fs": fs, "ms": ms, "k": k, "variant": "f64", "batch": batch, "return_peak_channel": True}
+            ok = st == "ok" and isinstance(val, tuple) and len(val) == 2
+            if ok:
+                try:
+                    tr = np.asarray(val[1], dtype=float)
+                    want = np.array([analyse(w)["x"] for w in batch], dtype=float)
+                    ok = tr.shape == want.shape and bool(np.array_equal(tr, want)) and \
+                        all(int(val[0][c].iloc[i]) == res[i][c] for c in IDX_COLS for i in range(len(batch)))
+                except Exception:      # noqa
+                    ok = False
+            if not ok:
+                ctx.fail("return_peak_channel=True does not return (same frame, real peak traces): %r" % (
+                    val if st == "exc" else type(val).__name__,), rdesc, {"class": "fault", "clause": "return_peak_channel"})
         T, C = len(batch[0]), len(batch[0][0])
         sizes["T_min"], sizes["T_max"] = min(sizes["T_min"], T), max(sizes["T_max"], T)
         sizes["C_min"], sizes["C_max"] = min(sizes["C_min"], C), max(sizes["C_max"], C)
@@ -921,6 +1045,15 @@ def replay(ctx, data):
         print(json.dumps(data, indent=1)[:3000])
         return 1
     batch, fs, ms, variant = inp["batch"], inp.get("fs"), inp.get("ms"), inp.get("variant", "f64")
+    if inp.get("mode") == "helpers":
+        hrows = [tuple(r[:4]) + (r[4],) for r in inp["rows"]]
+        hobs = impl_helpers(inp["k"], hrows)
+        print("stage functions called directly:", repr(hobs)[:1500])
+        if isinstance(hobs, Exception):
+            return 1
+        ids = common.coq_mismatches(PROP, HEADER, [common.flat_cases_term(0, enc_helper_inp(inp["k"], hrows), hobs)])
+        print("kernel-evaluated model agrees with implementation:", not ids)
+        return 1 if ids else 0
     if inp.get("mode") == "canary":
         dead = canary()
         print("child-process run of the public functions:", dead or "fine")
@@ -936,7 +1069,8 @@ def replay(ctx, data):
         return 1 if (bad or ids) else 0
     stats = {k: 0 for k in ("rows", "raised", "swap", "doubly_positive", "peak_last5", "trough_last5",
                             "recovery_fallback", "positive_peak", "channel_tie", "nan", "peak_eq_trough",
-                            "meta_calls", "perm_rows", "perm_skipped_tie", "nondefault_fs_or_ms", "peaks_calls")}
+                            "meta_calls", "perm_rows", "perm_skipped_tie", "nondefault_fs_or_ms", "peaks_calls",
+                            "helper_calls", "return_peak_channel_calls")}
     res = check_batch(ctx, batch, fs, ms, stats, variant=variant)
     if isinstance(res, Exception):
         print("implementation raised:", repr(res))
